@@ -149,6 +149,16 @@ class OldRewriter(ast.NodeTransformer):
     def __init__(self, names):
         self.names = names
 
+    def visit_Compare(self, node):
+        self.generic_visit(node)
+        # objects of the library have no __eq__: `==` in a specification means structural equality
+        if len(node.ops) == 1 and isinstance(node.ops[0], (ast.Eq, ast.NotEq)):
+            call = ast.Call(func=ast.Name(id="__speq", ctx=ast.Load()), args=[node.left, node.comparators[0]], keywords=[])
+            if isinstance(node.ops[0], ast.NotEq):
+                call = ast.UnaryOp(op=ast.Not(), operand=call)
+            return ast.copy_location(call, node)
+        return node
+
     def visit_Call(self, node):
         self.generic_visit(node)
         if isinstance(node.func, ast.Name) and node.func.id == "implies" and len(node.args) == 2:
@@ -183,7 +193,16 @@ def eval_clause(text, env, old_env):
     g = spec_globals()
     g.update(env)
     g["__old"] = old_env
+    g["__speq"] = spec_equal
     return bool(eval(compile(tree, "<clause>", "eval"), g))
+
+
+def spec_equal(a, b):
+    if hasattr(type(a), "__slots__") and not isinstance(a, (int, float, str, bytes)) and type(a).__module__.startswith("probables"):
+        return same_value(a, b)
+    if callable(a) and callable(b):
+        return a is b or getattr(a, "__wrapped__", a) is getattr(b, "__wrapped__", b)
+    return a == b
 
 
 def snapshot(obj):
